@@ -1,6 +1,6 @@
 (* C17 correspondence: case type, model run (as sx observation), executable statement spec_ok. *)
 From Verif Require Import Base.Prelude Base.Index Model.SweepSpec.
-From Verif Require Export Model.Sweep.
+From Verif Require Export Model.Sweep Model.SweepSeq.
 
 (* structural user callables: both sides can evaluate them *)
 Inductive dexpr :=
@@ -59,6 +59,13 @@ Fixpoint leaves (e : mexpr) : list rsweep :=
   | EMulti l => flat_map leaves l
   end.
 
+(* one operation on the slots (0.. = the base sweeps, then one slot per successful operation) *)
+Inductive sop :=
+| OProduct (i : nat) (js : list nat)
+| OAdd (i j : nat)
+| OFilter (i : nat) (keys : list str)
+| OAddDer (i : nat) (d : list (str * dexpr)).
+
 Inductive case :=
 | CSweep (r : rsweep)                                   (* Sweep(...).list(), len *)
 | CAddDer (r : rsweep) (d : list (str * dexpr))         (* Sweep(...).add_derivers( **d ) *)
@@ -66,7 +73,8 @@ Inductive case :=
 | CMulti (e : mexpr)                                    (* + / MultiSweep *)
 | CFilter (r : rsweep) (keys : list str)                (* filtered_sweep(keys) *)
 | CFilterM (e : mexpr) (keys : list str)
-| CCount (r : rsweep) (deps : list (str * list str)).   (* count_sweep with the given (dependency, root_args) *)
+| CCount (r : rsweep) (deps : list (str * list str))    (* count_sweep with the given (dependency, root_args) *)
+| CSeq (base : list rsweep) (ops : list sop).           (* operations on shared objects, everything re-listed *)
 
 (* ---------- observations ---------- *)
 Definition sx_combo (c : combo) : sx := SL (map (fun kv => SL [SS (fst kv); snd kv]) c).
@@ -80,6 +88,38 @@ Definition sx_counts (l : list (str * list (list val * nat))) : sx :=
 Definition obs_sweep (s : sweep) : sx := SL [res_list (generate s); res_nat (len s)].
 Definition obs_msweep (m : msweep) : sx := SL [res_list (mgenerate m); res_nat (mlen m)].
 
+(* ---------- operation sequences on shared objects ---------- *)
+Definition to_mop (o : sop) : mop :=
+  match o with
+  | OProduct i js => MProduct i js
+  | OAdd i j => MAdd i j
+  | OFilter i keys => MFilter i keys
+  | OAddDer i d => MAddDer i (mk_ders d)
+  end.
+
+(* list() and len() of one object; a MultiSweep that contains itself recurses until RecursionError *)
+Definition obs_obj (h : heap) (id : nat) : sx :=
+  match value h id with
+  | Some m => obs_msweep m
+  | None => SL [SErr OtherError; SErr OtherError]
+  end.
+Definition snapshot (h : heap) (slots : list nat) : sx := SL (map (obs_obj h) slots).
+
+Fixpoint run_ops (h : heap) (slots : list nat) (ops : list sop) : list sx :=
+  match ops with
+  | [] => []
+  | o :: t =>
+      match step h slots (to_mop o) with
+      | SNew h' id => SL [SS (s "ok"); snapshot h' (slots ++ [id])] :: run_ops h' (slots ++ [id]) t
+      | SRaise e => SL [SErr e; snapshot h slots] :: run_ops h slots t
+      | SBad => SL [SS (s "bad-case"); snapshot h slots] :: run_ops h slots t
+      end
+  end.
+Definition run_seq (base : list rsweep) (ops : list sop) : sx :=
+  let h := map (fun r => HSweep (to_sweep r)) base in
+  let slots := seq 0 (length base) in
+  SL (snapshot h slots :: run_ops h slots ops).
+
 Definition run (c : case) : sx :=
   match c with
   | CSweep r => obs_sweep (to_sweep r)
@@ -90,6 +130,7 @@ Definition run (c : case) : sx :=
   | CFilterM e keys => sx_of_result obs_msweep (mfiltered (eval_m e) keys)
   | CCount r deps =>
       SL [sx_deps deps; sx_of_result sx_counts (do cs <- generate (to_sweep r); count_sweep deps cs)]
+  | CSeq base ops => run_seq base ops
   end.
 
 (* ---------- decoding of observations ---------- *)
@@ -299,6 +340,104 @@ Definition count_ok (r : rsweep) (deps : list (str * list str)) (o : sx) : bool 
     end
   else true.
 
+(* ---------- operation sequences: nothing that exists changes, every new result is the documented one ---------- *)
+(* what is known about a slot: a product of base sweeps (a base sweep is the product of itself), or something else *)
+Inductive prov := PB (rs : list rsweep) | POther.
+
+Fixpoint all_pb (ps : list (option prov)) : option (list rsweep) :=
+  match ps with
+  | [] => Some []
+  | Some (PB rs) :: t => option_map (fun r => rs ++ r) (all_pb t)
+  | _ :: _ => None
+  end.
+
+(* the slots that existed before the step are observed exactly as before it *)
+Fixpoint unchanged (prev now : list sx) : bool :=
+  match prev, now with
+  | [], _ => true
+  | p :: prev', n :: now' => sx_eqb p n && unchanged prev' now'
+  | _ :: _, [] => false
+  end.
+
+Definition obs_list (o : sx) : option (list sx) :=
+  match o with SL [olist; _] => match un_ok olist with Some (SL l) => Some l | _ => None end | _ => None end.
+
+(* a + b : the combinations of a followed by those of b, as they were listed before the operation *)
+Definition add_ok (oa ob onew : sx) : bool :=
+  match onew with
+  | SL [olist; olen] =>
+      len_ok olist olen
+      && match obs_list oa, obs_list ob with
+         | Some la, Some lb => match obs_list onew with Some ln => list_eqb sx_eqb ln (la ++ lb) | None => false end
+         | _, _ => true
+         end
+  | _ => false
+  end.
+
+Definition new_ok (provs : list prov) (prev : list sx) (o : sop) (res : sx) : bool :=
+  (* res : the operation's outcome as sx_of_result of the new object's observation *)
+  match o with
+  | OProduct i js =>
+      match all_pb (map (nth_error provs) (i :: js)) with
+      | Some rs => product_ok rs res
+      | None => match un_ok res with Some (SL [olist; olen]) => len_ok olist olen | _ => true end
+      end
+  | OAdd i j =>
+      match un_ok res, nth_error prev i, nth_error prev j with
+      | Some onew, Some oa, Some ob => add_ok oa ob onew
+      | _, _, _ => true
+      end
+  | OFilter i keys =>
+      match nth_error provs i with
+      | Some (PB [r]) => filter_ok r keys res
+      | _ => match un_ok res with Some (SL [olist; olen]) => len_ok olist olen | _ => true end
+      end
+  | OAddDer i d => match un_ok res with Some (SL [olist; olen]) => len_ok olist olen | _ => true end
+  end.
+
+Definition new_prov (provs : list prov) (o : sop) : prov :=
+  match o with
+  | OProduct i js => match all_pb (map (nth_error provs) (i :: js)) with Some rs => PB rs | None => POther end
+  | _ => POther
+  end.
+
+Fixpoint last_opt {A} (l : list A) : option A :=
+  match l with [] => None | [x] => Some x | _ :: t => last_opt t end.
+
+Fixpoint seq_steps_ok (provs : list prov) (prev : list sx) (ops : list sop) (steps : list sx) : bool :=
+  match ops, steps with
+  | [], [] => true
+  | o :: ops', SL [marker; SL now] :: steps' =>
+      unchanged prev now
+      && (if sx_eqb marker (SS (s "ok")) then
+            (length now =? S (length prev))
+            && match last_opt now with
+               | Some onew => new_ok provs prev o (SL [SS (s "ok"); onew])
+                              && seq_steps_ok (provs ++ [new_prov provs o]) now ops' steps'
+               | None => false
+               end
+          else
+            (length now =? length prev)
+            && (if sx_is_err marker then new_ok provs prev o marker else true)
+            && seq_steps_ok provs now ops' steps')
+  | _, _ => false
+  end.
+
+Fixpoint forallb2' {A B} (f : A -> B -> bool) (a : list A) (b : list B) : bool :=
+  match a, b with
+  | [], [] => true
+  | x :: a', y :: b' => f x y && forallb2' f a' b'
+  | _, _ => false
+  end.
+
+Definition seq_ok (base : list rsweep) (ops : list sop) (o : sx) : bool :=
+  match o with
+  | SL (SL snap0 :: steps) =>
+      forallb2' (fun r ob => sweep_ok r (to_sweep r) ob) base snap0
+      && seq_steps_ok (map (fun r => PB [r]) base) snap0 ops steps
+  | _ => false
+  end.
+
 Definition spec_ok (c : case) (o : sx) : bool :=
   match c with
   | CSweep r => sweep_ok r (to_sweep r) o
@@ -310,4 +449,5 @@ Definition spec_ok (c : case) (o : sx) : bool :=
   | CFilter r keys => filter_ok r keys o
   | CFilterM e keys => filterm_ok (leaves e) keys o
   | CCount r deps => count_ok r deps o
+  | CSeq base ops => seq_ok base ops o
   end.
